@@ -8,7 +8,7 @@
 #define LOAD _Z28load_corpus_and_write_abixmlPPcRSt10shared_ptrIN7abigail2ir11environmentEER7options
 typedef struct class_std____cxx11__basic_string vstr_t;
 typedef struct { void *p, *c; } sp_t;
-extern void *os_target, *os_target_ios; extern _Bool os_failed, os_open_ok; extern u32 os_pending, os_written;
+extern void *os_target, *os_target_ios; extern _Bool os_failed, os_open_ok; extern u32 os_fail_state; extern u32 os_pending, os_written;
 void *os_ios_of(void *os); void os_harness_write(void *os, u32 n);
 
 static _Bool load_failed, wrote, reread_attempted, reread_failed, has_changes_, reported, diffed;
@@ -52,7 +52,7 @@ static u8 opts_mem[1024] __attribute__((aligned(16)));
 void h_write(void)
 {
   obj_n = 0; load_failed = wrote = reread_attempted = reread_failed = reported = diffed = 0;
-  os_failed = 0; os_pending = 0; os_written = 0; os_target = (void *)obj_pool; os_target_ios = 0;
+  os_failed = 0; os_fail_state = 0; os_pending = 0; os_written = 0; os_target = (void *)obj_pool; os_target_ios = 0;
   tmp_stream[2] = (u64)&tmp_vt[3]; cd_vtbl[2] = (void *)cd_report;
   has_changes_ = nondet_bool(); os_open_ok = nondet_bool();
   __CPROVER_assert(w_opts_size() <= sizeof opts_mem, "BOUND: options struct larger than the harness buffer");
